@@ -144,9 +144,10 @@ class DtCC(ctrl.ArbitraryCC):
 
     def prepare_next_block(self, controller, S, size, time, Tend, **kw):
         self.trace.append(('cc', 'prepare_next_block', S.status.slot, size, time, Tend, kw.get('comm')))
-        dt = self.fresh.real('dt_next_block')
-        self.mk.assume(dt > 0, 'callee post: step size > 0')
-        for L in S.levels:
+        for l, L in enumerate(S.levels):
+            # coarse levels carry their own value (see C06_tiling.StepSizeCC)
+            dt = self.fresh.real('dt_next_block' if l == 0 else f'dt_next_block_L{l}')
+            self.mk.assume(dt > 0, 'callee post: step size > 0')
             L.params.dt = dt
 
     def post_step_processing(self, controller, S, **kw):
@@ -180,8 +181,10 @@ def setup(mk, inst, stub_restart_block=True):
     S = c.S
     dt = mk.real('dt_mine')
     mk.assume(dt > 0, 'dt>0')
-    for L in S.levels:
-        L.params.dt = dt
+    for l, L in enumerate(S.levels):
+        L.params.dt = dt if l == 0 else mk.real(f'dt_mine_L{l}')
+        if l > 0:
+            mk.assume(L.params.dt > 0, 'dt>0')
     st = State(c=c, S=S, log=log, trace=trace, world=world, mk=mk, fresh=fresh, inst=inst, dt=dt, mod=mod, real_ccs=real_ccs)
 
     if stub_restart_block:
@@ -357,7 +360,7 @@ class RunBodyMPI(_MPIBase):
         pnb = [e for e in tr if e[0] == 'cc' and e[1] == 'prepare_next_block']
         yield 'prepare_next_block_once_with_block_end_time', len(pnb) == 1 and pnb[0][4] is tend and pnb[0][5] is st.Tend and pnb[0][3] == a
         new_dt = ag[1][3]
-        yield 'step_sizes_gathered_after_prepare_next_block', ag[1][2] is S.dt
+        yield 'step_sizes_gathered_after_prepare_next_block', ag[1][2] is S.levels[0].params.dt
         mytime = tend + sum(new_dt[:s])
         yield 'my_next_start_time', seq(L['time'], mytime)
         yield 'active_iff_next_start_time_before_Tend', Iff(L['active'], mytime < thr(st.Tend))
